@@ -918,7 +918,7 @@ result_t ValueListDataField::writeSymbols(size_t offset, istringstream* input,
     SymbolString* output, size_t* usedLength) const {
   const NumberDataType* numType = reinterpret_cast<const NumberDataType*>(m_dataType);
   const string inputStr = input->str();
-  if (isIgnored() || inputStr == NULL_VALUE) {
+  if (isIgnored() || (inputStr == NULL_VALUE && m_values.find(numType->getReplacement()) == m_values.end())) {
     // replacement value
     return numType->writeRawValue(numType->getReplacement(), offset, m_length, output, usedLength);
   }
